@@ -709,7 +709,10 @@ pub fn run_all(ctx: &Ctx, r: &mut Report) -> anyhow::Result<()> {
 	crate::fstreams::stream_spec_knobs(ctx, r, &mut rng.fork(6));
 	crate::fstreams::stream_boundary(ctx, r);
 	crate::fstreams::stream_corpus(ctx, r);
+	crate::cfile::stream_witnesses(r);
 	crate::cfile::stream_files(ctx, r, &mut rng.fork(9));
+	crate::cfile::stream_nesting(r);
+	crate::cfile::stream_damaged(ctx, r, &mut rng.fork(10));
 	Ok(())
 }
 
